@@ -7,6 +7,8 @@
 //         M fail <pid> <k> <count>                      raw-alloc calls number k .. k+count-1 of that pool fail (k=0: none)
 //         <t> ddrain <pid> <slot> 0                      take (and keep) everything the DEFAULT pool can give without asking the OS
 //         M osfail <pid> <0|1>                          refuse (1) / allow (0) tbbmalloc's own requests to the OS (not the pools' raw callbacks)
+//         M freefail <pid> <k> <count>                  raw-free calls number k .. k+count-1 of that pool (counted from this command on) report an error and
+//                                                       keep the region for the caller (it is no longer the pool's: never to be used or offered again)
 //         M reset <pid> | M destroy <pid>
 //         <t> [!]pmalloc <pid> <slot> <size>            `!` = must succeed (recovery check)
 //         <t> [!]pamalloc <pid> <slot> <size> <log2 align>
@@ -21,7 +23,7 @@
 //   fixed-twice  a fixed pool called its raw allocator a second time
 //   raw-free     raw free of something the pool does not own (double return, wrong size)
 //   in-use       a region was returned while a live block lies in it
-//   leak         pool_destroy did not return every region (pools with a free callback)
+//   leak         pool_destroy did not hand every region to the raw-free callback (pools with a free callback), also when some call reports an error
 //   after-fail   a live block changed during an operation that hit an injected failure
 // Output also contains the per-pool ledger (`LEDGER <pid> a|f|b <start> <size>`) for validation against the Lean
 // PoolLedger, `RAWCALLS <pid> <n> <failed>` and `done ops=<n> violations=<m> nulls=<k>`.
@@ -70,6 +72,8 @@ struct PoolCtx {
     std::map<uintptr_t, size_t> regions;
     std::map<uintptr_t, uintptr_t> blocks;      // live user blocks of this pool: start -> end
     int rawCalls = 0, failFrom = 0, failCount = 0;
+    int freeCalls = 0, freeFailFrom = 0, freeFailCount = 0, freeRefused = 0;
+    std::vector<std::pair<void *, size_t>> refused;       // regions whose return was refused: the caller's again, unmapped at the end of the run
     std::atomic<int> failed{0};
     std::vector<std::string> ledger;
 };
@@ -141,6 +145,13 @@ static int rawFree(std::intptr_t id, void *ptr, std::size_t bytes) {
     if (bl != c.blocks.end() && bl->first < e)
         violation("in-use", 0, "pool %d returned region [%#zx,+%zu) while live block [%#zx,%#zx) lies in it", c.pid, (size_t)s, bytes, (size_t)bl->first, (size_t)bl->second);
     c.regions.erase(it);
+    c.freeCalls++;
+    if (c.freeFailFrom && c.freeCalls >= c.freeFailFrom && c.freeCalls < c.freeFailFrom + c.freeFailCount) {
+        // the offer is refused (as a failing munmap would): the region was offered exactly once all the same, and must not be used or offered again
+        c.freeRefused++;
+        c.refused.push_back({ptr, bytes});
+        return 1;
+    }
     munmap(ptr, bytes);
     return 0;
 }
@@ -305,12 +316,16 @@ static void run_mop(const MOp &m) {
     if (m.what == "pool") {
         c.pid = (int)m.pid; c.fixed = m.a; c.keep = m.b; c.gran = (size_t)m.c; c.fixedBytes = (size_t)m.d; c.freeCb = m.e;
         c.rawCalls = 0; c.failFrom = c.failCount = 0; c.failed = 0; c.regions.clear(); c.blocks.clear();
+        c.freeCalls = c.freeFailFrom = c.freeFailCount = c.freeRefused = 0;
         rml::MemPoolPolicy pol(rawAlloc, c.freeCb ? rawFree : nullptr, c.gran, c.fixed, c.keep);
         rml::MemPoolError e = rml::pool_create_v1(m.pid, &pol, &c.pool);
         c.alive = e == rml::POOL_OK && c.pool;
         if (!c.alive) violation("create", m.line, "pool_create_v1 failed with %d", (int)e);
     } else if (m.what == "osfail") {
         g_os_fail = (int)m.a;
+    } else if (m.what == "freefail") {
+        std::lock_guard<std::mutex> l(c.mu);
+        c.freeCalls = 0; c.freeFailFrom = (int)m.a; c.freeFailCount = (int)m.b;
     } else if (m.what == "fail") {
         std::lock_guard<std::mutex> l(c.mu);
         c.failFrom = (int)m.a; c.failCount = (int)m.b;
@@ -321,16 +336,23 @@ static void run_mop(const MOp &m) {
     } else if (m.what == "destroy" && c.alive) {
         for (Slot &s : *g_slots) if (s.p && s.pid == m.pid) check_pattern(m.line, s);
         drop_pool_slots((int)m.pid);
+        int refused0;
+        { std::lock_guard<std::mutex> l(c.mu); refused0 = c.freeRefused; }
         bool ok = rml::pool_destroy(c.pool);
         c.alive = false;
-        if (!ok) violation("destroy", m.line, "pool_destroy returned false");
         std::lock_guard<std::mutex> l(c.mu);
+        if (!ok && c.freeRefused == refused0) violation("destroy", m.line, "pool_destroy returned false");
+        if (ok && c.freeRefused != refused0)
+            violation("destroy", m.line, "pool_destroy returned true although %d raw-free call(s) made by it reported an error", c.freeRefused - refused0);
+        printf("RAWFREE %d calls=%d refused=%d left=%zu\n", c.pid, c.freeCalls, c.freeRefused, c.regions.size());
         if (c.freeCb && !c.regions.empty())
             violation("leak", m.line, "pool %d destroyed but %zu raw region(s) were not returned", c.pid, c.regions.size());
         printf("RAWCALLS %d %d %d\n", c.pid, c.rawCalls, c.failed.load());
         for (auto &s : c.ledger) printf("LEDGER %d %s\n", c.pid, s.c_str());
         c.ledger.clear();
         if (!c.freeCb) { for (auto &r : c.regions) munmap((void *)r.first, r.second); c.regions.clear(); }
+        for (auto &r : c.refused) munmap(r.first, r.second);
+        c.refused.clear(); c.freeRefused = 0; c.freeFailFrom = c.freeFailCount = 0;
     }
 }
 
